@@ -155,7 +155,9 @@ class C04:
                             tests.append(par.test)
                         cur = par
                     cfg = self._config_names(q, fn)
-                    if tests and all(names_in(t) <= cfg | {"callable", "cleaners_lookup", "self"} for t in tests[:1]) and self._reads_only_config(tests[0], cfg):
+                    if tests and "self" in cfg and self._self_config_test(mod, fn, tests[0]):
+                        why = f"guarded by configuration only (`{norm(tests[0])[:50]}`)"
+                    elif tests and all(names_in(t) <= cfg | {"callable", "cleaners_lookup", "self"} for t in tests[:1]) and self._reads_only_config(tests[0], cfg):
                         why = f"guarded by configuration only (`{norm(tests[0])[:50]}`)"
                 # (b) unreachable by table agreement
                 if why is None and q == "find._extract_full_citation":
@@ -197,6 +199,35 @@ class C04:
             if isinstance(n, ast.For) and isinstance(n.target, ast.Name) and isinstance(n.iter, ast.Name) and n.iter.id in cfg:
                 cfg.add(n.target.id)
         return cfg
+
+    CONFIG_ATTRS = {"clean_steps", "markup_text"}
+
+    def _self_config_test(self, mod, fn: ast.FunctionDef, test: ast.AST) -> bool:
+        """a test in a method that reads nothing but the object's configuration attributes (cleaning steps, markup input), locals computed from
+        them alone, names bound inside the test itself, module-level names and builtins -- and that does consult the cleaning steps"""
+        import builtins as _b
+
+        def cfg_expr(e, derived):
+            bound = {t.id for x in ast.walk(e) if isinstance(x, ast.comprehension) for t in ast.walk(x.target) if isinstance(t, ast.Name)}
+            for x in ast.walk(e):
+                if isinstance(x, ast.Attribute) and isinstance(x.value, ast.Name) and x.value.id == "self":
+                    if x.attr not in self.CONFIG_ATTRS:
+                        return False
+                elif isinstance(x, ast.Name) and x.id != "self":
+                    if not (x.id in derived or x.id in bound or hasattr(_b, x.id) or x.id in mod.imports or mod.toplevel_assign(x.id) is not None):
+                        return False
+            return True
+
+        derived: Set[str] = set()
+        for _ in range(3):
+            for s_ in stmts_local(fn.body):
+                if isinstance(s_, ast.Assign) and len(s_.targets) == 1 and isinstance(s_.targets[0], ast.Name) and s_.targets[0].id not in derived:
+                    nm = s_.targets[0].id
+                    defs = [x for x in stmts_local(fn.body) if isinstance(x, (ast.Assign, ast.AugAssign, ast.AnnAssign, ast.For)) and nm in assigned_names(x)]
+                    if all(isinstance(x, ast.Assign) and cfg_expr(x.value, derived) for x in defs):
+                        derived.add(nm)
+        consults = any((isinstance(x, ast.Attribute) and x.attr == "clean_steps") or (isinstance(x, ast.Name) and x.id in derived) for x in ast.walk(test))
+        return consults and cfg_expr(test, derived)
 
     def _reads_only_config(self, test: ast.AST, cfg: Set[str]) -> bool:
         t = norm(test)
@@ -888,6 +919,61 @@ class C04:
                        "makes the regex module raise TypeError", node=c, mod=mod)
         ctx.extra["T12_regex_subjects"] = n
 
+    # ---- T13 look-ups in constant tables ------------------------------------------------------
+    def t13_table_lookups(self):
+        """`TABLE[key]` on a module-level dict literal with a computed key raises KeyError for every key the table lacks.  A key taken from the
+        text (a regex group, lower-cased or not: IGNORECASE matches 'ſ' for 's' and 'İ' for 'i', which str.lower() does not fold to ASCII) is
+        only safe behind `key in TABLE`, `.get`, or a handler for KeyError."""
+        ctx = self.ctx
+        n = 0
+        for q, mod, fn in self.funcs():
+            for s in [x for x in walk_local(fn) if isinstance(x, ast.Subscript) and isinstance(x.ctx, ast.Load) and isinstance(x.value, ast.Name)
+                      and not isinstance(x.slice, (ast.Constant, ast.Slice))]:
+                D = s.value.id
+                origin = mod.imports.get(D)
+                tbl = None
+                if origin and origin.startswith("eyecite."):
+                    om = self.repo.modules.get(origin.split(".")[1]) if origin.count(".") >= 2 else None
+                    tbl = om.toplevel_assign(origin.split(".")[-1]) if om is not None else None
+                elif origin is None and not any(D in assigned_names(x) for x in stmts_local(fn.body)) and D not in [a.arg for a in fn.args.args]:
+                    tbl = mod.toplevel_assign(D)
+                if not isinstance(tbl, ast.Dict):
+                    continue
+                n += 1
+                k = norm(s.slice)
+                in_try = False
+                cur = s
+                while cur is not fn:
+                    par = cur.parent
+                    if isinstance(par, ast.Try) and cur in par.body and any(h.type is None or any(x in norm(h.type) for x in ("KeyError", "LookupError", "Exception")) for h in par.handlers):
+                        in_try = True
+                    cur = par
+                ok = in_try or guarded(fn, s, {f"{k} in {D}"})
+                ctx.ob("T13", f"{q}/{D}[{k[:30]}]", ok,
+                       f"`{norm(s)[:60]}` looks a computed key up in the constant table `{D}`: KeyError for a key the table lacks, unless `{k[:30]} in {D}` "
+                       "dominates the look-up or KeyError is handled", node=s, mod=mod)
+        ctx.extra["T13_table_lookups"] = n
+
+    # ---- T14 the Hyperscan match handler never asks to stop --------------------------------------
+    def t14_scan_callbacks(self):
+        """python-hyperscan turns a true return value of the match handler into `hyperscan.ScanTerminated`, raised out of scan()."""
+        ctx = self.ctx
+        n = 0
+        for q, mod, fn in self.funcs():
+            for c in [x for x in walk_local(fn) if isinstance(x, ast.Call) and isinstance(x.func, ast.Attribute) and x.func.attr == "scan"]:
+                h = next((k.value for k in c.keywords if k.arg == "match_event_handler"), None) or (c.args[1] if len(c.args) > 1 else None)
+                if not isinstance(h, ast.Name):
+                    continue
+                cb = next((x for x in walk_local(fn) if isinstance(x, ast.FunctionDef) and x.name == h.id), None)
+                if cb is None:
+                    continue
+                n += 1
+                rets = [r for r in walk_local(cb) if isinstance(r, ast.Return) and r.value is not None and not (isinstance(r.value, ast.Constant) and not r.value.value)]
+                ctx.ob("T14", f"{q}/{h.id}:returns-nothing", not rets,
+                       f"the scan callback must return None / a false constant on every path (returns: {[norm(r)[:40] for r in rets]}): a true value makes "
+                       "hyperscan raise ScanTerminated from scan(), i.e. from get_citations", node=rets[0] if rets else cb, mod=mod)
+        ctx.extra["T14_scan_callbacks"] = n
+
     # ---- T10 encoding input text -----------------------------------------------------------
     def t10_encoding(self):
         ctx = self.ctx
@@ -1174,6 +1260,8 @@ def run(ctx: Ctx):
     ctx.guard(C.t10_encoding)
     ctx.guard(C.t11_foreign_parsers)
     ctx.guard(C.t12_regex_subjects)
+    ctx.guard(C.t13_table_lookups)
+    ctx.guard(C.t14_scan_callbacks)
     ctx.floor("T10", 1)  # the encoding of the document text itself; the others encode patterns / cache keys
     ctx.floor("T1", 4)
     ctx.floor("T2", 8)
